@@ -450,9 +450,11 @@ class AffTok(Ext):
                 from sa.poly import RF
                 pt = tuple(i.iterate(a[0]))
                 tag = "*".join(self.app) or "identity"
-                if not self.app:
-                    return pt
-                return (RF.sym(f"mapx[{tag}]({pt[0]!r},{pt[1]!r})"), RF.sym(f"mapy[{tag}]({pt[0]!r},{pt[1]!r})"))
+                from sa.sym import ClassRef, Rec
+                xy = pt if not self.app else (RF.sym(f"mapx[{tag}]({pt[0]!r},{pt[1]!r})"), RF.sym(f"mapy[{tag}]({pt[0]!r},{pt[1]!r})"))
+                if "geometric_types" in getattr(i.repo, "modules", {}) and "Point" in i.repo["geometric_types"].classes:
+                    return Rec(ClassRef("geometric_types", "Point"), {"x": xy[0], "y": xy[1]})
+                return tuple(xy)
             return PyCallable(mp)
         if attr in ("a", "b", "c", "d", "e", "f"):
             from sa.poly import RF
